@@ -43,6 +43,8 @@ def main():
             out.append(f)
             f = f.f_back
         return out
+    if a.tier != "quick":
+        os.environ.setdefault("VERIF_DRIVER_TIMEOUT", "3600")      # long exact certificates (d = 128..200) belong to the thorough tier
     signal.signal(signal.SIGALRM, on_alarm)
     signal.alarm(limit)
     try:
